@@ -748,6 +748,51 @@ def directed_values(cx):
             cx.failing.append(("oracle", case_of(r), v[key]))
 
 
+def deep_nesting(cx):
+    """objects nested tens of thousands of levels deep, then the generator is reset, reused and dropped (`heap --stdin`:
+    generate; generate, reset, generate again; drop).  Anything recursive over the nesting depth — a drop order, a
+    clone, a hash, a debug print — overflows the native stack there; each case runs in a process of its own so that a
+    crash is attributed to it.  Plans: NONE followed by N x TUPLE1 (protocol >= 2), and N x MARK, NONE, N x TUPLE
+    (protocols 0 and 1); the choice bytes are read off a short plan steered through the model."""
+    n_t1 = 150000 if cx.tier == "quick" else 600000
+    n_mk = 12000 if cx.tier == "quick" else 40000
+    cases = []
+    for p in range(6):
+        cfg = "P=%d unsafe=0 ext=0 buf=0 mask=0 rate=0000000000000000" % p
+        if p >= 2:
+            o = [l for l in drive("steer %s frame=0 plan=None,Tuple1,Tuple1\n" % cfg) if l.startswith("steer ok")]
+            if not o:
+                continue
+            b = bytes.fromhex(toks(o[0])["bytes"])
+            data = b + bytes([b[-1]]) * (n_t1 - 2)
+            cases.append(("tuple1-chain", "id=0 %s min=%d max=%d warm=0 mode=arb:%s" % (cfg, n_t1 + 1, n_t1 + 1, data.hex())))
+        if p <= 1 or p == 4:
+            o = [l for l in drive("steer %s frame=0 plan=Mark,Mark,None,Tuple,Tuple\n" % cfg) if l.startswith("steer ok")]
+            if not o:
+                continue
+            b = bytes.fromhex(toks(o[0])["bytes"])
+            pre, (m0, m1, nn, t1, t2) = b[:-5], b[-5:]
+            if t1 != t2:
+                continue
+            data = pre + bytes([m0]) + bytes([m1]) * (n_mk - 1) + bytes([nn]) + bytes([t1]) * n_mk
+            cases.append(("mark-tuple-chain", "id=0 %s min=%d max=%d warm=0 mode=arb:%s" % (cfg, 2 * n_mk + 1, 2 * n_mk + 1, data.hex())))
+    cx.cov["deep_nesting_cases"] = len(cases)
+    for name, line in cases:
+        rc, out, err = sh([HARNESS, "heap", "--stdin"], inp=line + "\n", timeout=STREAM_TIMEOUT[0], big_stack=False)
+        cx.cov["evaluations"] += 1
+        cx.bump("deep-nesting/" + name)
+        got = [l for l in out.split("\n") if l.startswith("heap id")]
+        short = line[:200] + "...(%d input bytes; family %s, see check.py deep_nesting)" % ((len(line) - line.index("arb:")) // 2, name)
+        if rc != 0 or not got:
+            cx.failing.append(("deep-nesting", short, "the_process_died_(exit_status_%s)_while_generating,_reusing_or_dropping_a_%s:_native_stack_overflow?" % (rc, name)))
+            continue
+        r = toks(got[0])
+        if r.get("gen") != "ok":
+            cx.failing.append(("deep-nesting", short, "deep_nesting_generation_failed:" + r.get("gen", "?")))
+        elif int(r.get("delta", "0")) != 0:
+            cx.failing.append(("deep-nesting", short, "%s_bytes_still_live_after_the_generator_was_dropped(%s)" % (r.get("delta"), name)))
+
+
 def stream_s1(cx):
     n, mism = run_probe(cx.T["probe_depth"], cx.T["probe_deep"])
     cx.cov["s1_states"] = n
@@ -1063,6 +1108,10 @@ def targeted_search(cx, mismatches, budget=320):
                             continue
                         impl_hex = vm[0].split("impl=")[-1]
                         lst = [impl_hex[i:i + 2] for i in range(0, len(impl_hex), 2)]
+                        if p >= 2 and h.get("pe", "0") == "0":
+                            # the probed state had PROTO still to come; inside a generation for protocol >= 2 it has been
+                            # written already and is no longer among the candidates
+                            lst = [x for x in lst if x != "80"]
                         if ob[op] not in lst:
                             continue
                         last = "%s@%d" % (op, lst.index(ob[op]))
@@ -1223,6 +1272,11 @@ def check_property(prop, tier, seed):
         stream_oracle(cx)
     except Exception as e:
         cx.corr.append(dict(stream="oracle", count=1, first="the oracle stream could not run: %s" % str(e)[:600]))
+    if prop == "C09":
+        try:
+            deep_nesting(cx)
+        except Exception as e:
+            cx.corr.append(dict(stream="deep-nesting", count=1, first="deep-nesting family could not run: %s" % str(e)[:400]))
     if prop in ("C04", "C09", "C01"):
         try:
             directed_values(cx)
@@ -1790,6 +1844,10 @@ def check_c14(prop, tier, seed):
                 cx.failing.append(("S8", case_of(l), "%d_bytes_still_live_after_the_generator_was_dropped(cycle_plan)" % d))
     except Exception as e:
         cx.corr.append(dict(stream="S8", count=1, first="cycle-plan stream could not run: %s" % str(e)[:400]))
+    try:
+        deep_nesting(cx)
+    except Exception as e:
+        cx.corr.append(dict(stream="deep-nesting", count=1, first="deep-nesting family could not run: %s" % str(e)[:400]))
     cov["distinct_nontrivial"] = len(seen)
     cov["sum_of_deltas_bytes"] = total
     cov["input_distribution"] = cx.hist
@@ -1798,7 +1856,7 @@ def check_c14(prop, tier, seed):
     cov["impl_vs_oracle_failures"] = len(cx.failing)
     if cx.failing:
         stream, cl, det = cx.failing[0]
-        p = write_replay(prop, "failing-input", dict(stream="S8", case=cl, observed=det + " (and %d more leaking cases)" % (len(cx.failing) - 1),
+        p = write_replay(prop, "failing-input", dict(stream=stream, case=cl, observed=det + " (and %d more leaking cases)" % (len(cx.failing) - 1),
                          required="live heap bytes before constructing the generator = after dropping it",
                          rerun="/verif/build/harness-target/release/pfv-harness heap --case " + cl))
         violations.append((p, ""))
